@@ -336,6 +336,38 @@ func leanAsyncFacts(fs []fnFact) string {
 	return sb.String()
 }
 
+// callsUnderOwnLock: inside method `fn` (receiver recv) a call `recv.<callee>(…)` is made in the method body proper —
+// not inside a function literal (deferred to run after the deferred Unlock, or spawned) — while the method locks
+// `recv.<mutexField>` itself.
+func callsUnderOwnLock(f *ast.File, fn, mutexField, callee string) (bool, bool) {
+	for _, d := range f.Decls {
+		fd, ok := d.(*ast.FuncDecl)
+		if !ok || fd.Name.Name != fn || fd.Body == nil || fd.Recv == nil || len(fd.Recv.List) != 1 || len(fd.Recv.List[0].Names) != 1 {
+			continue
+		}
+		recv := fd.Recv.List[0].Names[0].Name
+		locks, calls := false, false
+		ast.Inspect(fd.Body, func(n ast.Node) bool {
+			switch v := n.(type) {
+			case *ast.FuncLit:
+				return false
+			case *ast.CallExpr:
+				if sel, ok := v.Fun.(*ast.SelectorExpr); ok {
+					if recvIsRouter(sel.X, recv) && sel.Sel.Name == callee {
+						calls = true
+					}
+					if inner, ok := sel.X.(*ast.SelectorExpr); ok && recvIsRouter(inner.X, recv) && inner.Sel.Name == mutexField && sel.Sel.Name == "Lock" {
+						locks = true
+					}
+				}
+			}
+			return true
+		})
+		return locks && calls, true
+	}
+	return false, false
+}
+
 func writeIfChanged(path, content string) {
 	old, err := os.ReadFile(path)
 	if err == nil && string(old) == content {
@@ -391,6 +423,47 @@ func main() {
 		if !found {
 			die("dv/nfdc/nfdc.go: NfdMgmtThread.Exec with a send on the command channel not found")
 		}
+		// lock order between the router and its prefix-table sync group: SvSync delivers updates to the router's
+		// callback (which takes Router.mutex) while holding SvSync.mutex?  The router calls into SvSync (IncrSeqNo via
+		// PrefixTable.Announce / Withdraw, which take SvSync.mutex) while holding Router.mutex?
+		svsUnder, f1 := callsUnderOwnLock(parse(filepath.Join(repo, "std/sync/svs.go")), "onReceiveStateVector", "mutex", "onUpdate")
+		if !f1 {
+			die("std/sync/svs.go: SvSync.onReceiveStateVector not found")
+		}
+		rvUnder := false
+		{
+			rf := parse(filepath.Join(repo, "dv/dv/readvertise.go"))
+			found := false
+			for _, d := range rf.Decls {
+				fd, ok := d.(*ast.FuncDecl)
+				if !ok || fd.Name.Name != "readvertiseOnInterest" || fd.Body == nil {
+					continue
+				}
+				found = true
+				var l bool
+				var i []string
+				routerCalls(fd.Body, fd.Recv.List[0].Names[0].Name, false, &l, &i, nil)
+				announces := false
+				ast.Inspect(fd.Body, func(n ast.Node) bool {
+					if c, ok := n.(*ast.CallExpr); ok {
+						if sel, ok := c.Fun.(*ast.SelectorExpr); ok && (sel.Sel.Name == "Announce" || sel.Sel.Name == "Withdraw") {
+							announces = true
+						}
+					}
+					return true
+				})
+				rvUnder = l && announces
+			}
+			if !found {
+				die("dv/dv/readvertise.go: readvertiseOnInterest not found")
+			}
+		}
+		writeIfChanged(filepath.Join(verif, "lean/NdnVerif/Gen/C19Locks.lean"), fmt.Sprintf(
+			"-- GENERATED by harness/cmd/dvgen from std/sync/svs.go, dv/dv/readvertise.go (go/ast) — do not edit\n"+
+				"namespace Ndn.Gen.C19\n\n/-- SvSync.onReceiveStateVector calls the application's onUpdate in its own body while it holds SvSync.mutex\n"+
+				"    (false: the updates are handed over after the mutex is released) -/\ndef svsUpdateUnderLock : Bool := %v\n\n"+
+				"/-- readvertiseOnInterest holds Router.mutex while PrefixTable.Announce / Withdraw call into SvSync (IncrSeqNo takes SvSync.mutex) -/\n"+
+				"def announceUnderRouterLock : Bool := %v\n\nend Ndn.Gen.C19\n", svsUnder, rvUnder))
 		writeIfChanged(filepath.Join(verif, "lean/NdnVerif/Gen/C19Consts.lean"), fmt.Sprintf(
 			"-- GENERATED by harness/cmd/dvgen from dv/config/config.go, dv/table/prefix_table.go, dv/dv/prefix_sync.go, dv/nfdc/nfdc.go — do not edit\n"+
 				"namespace Ndn.Gen.C19\n\n/-- `config.CostInfinity` -/\ndef costInfinity : Nat := %d\n\n"+
